@@ -40,6 +40,23 @@ chk("C11","fault_enumeration",
     "Complete over cut positions for the listed files; the files are a fixed list. Ok(None)/Err both count as 'no data'.",
     "exhaustive enumeration of crash/cut points with a differential oracle against the complete file","§3 C11")
 
+chk("C02","model_checking",
+    "The same history space as C01; every output is parsed by the harness' own strict ISO-BMFF parser (no library code) and every clause of the statement (tiling, container arithmetic, table totals and per-sample values, sync table, chunk bounds and disjointness, header durations within one tick) is recomputed from the bytes and the history.",
+    "Bounded as C01. Trusted: refmp4::parse / refmp4::validate, hand-written from ISO/IEC 14496-12.",
+    "exhaustive enumeration of operation histories (depth-bounded) on the real muxer, judged by an independent reference decoder","§3 C02")
+chk("C14","model_checking",
+    "Complete loops over each configuration field's domain (all 42x13x7 AAC triples x 4 bitrates, all 26^3 languages, every u16 width and height for the three video kinds, SPS profile/compat/level bytes one-hot or all 2^24, parameter-set lengths up to 65535, brand lists, timescale grid, track-type x media pairs, two-track pairs), each muxed with small histories and reopened; every accessor named in the statement must equal the configuration and durations must agree within one tick.",
+    "Fields are swept one or two at a time (not the full cross product of all fields). Trusted: Annex A profile table and the duration tolerance stated in the evidence.",
+    "exhaustive enumeration of configuration domains x small operation histories on the real muxer+reader","§3 C14")
+chk("C15","model_checking",
+    "Reader: explicit-state breadth-first search of the complete reachable state graph of an opened reader under a ~30-50 call alphabet (state = canonical rendering of every field + stream position); every call is applied in every reachable state and must return what a fresh reader returns; plus an undeduplicated sweep of all call sequences to depth 2/3. Muxer: every history of C01's quick space muxed twice, byte-identical; every file opened twice, structures equal.",
+    "State equality is by fingerprint (sorted pretty-Debug lines + stream position); the depth-2/3 sweep without de-duplication cross-checks it. Files are a fixed list.",
+    "explicit-state BFS with state de-duplication over the real reader (whole reachable graph) + exhaustive history enumeration for determinism","§3 C15")
+chk("C17","model_checking",
+    "All sequences of add_track/write_sample calls (closed by write_end) up to length 4/5 over alphabets of out-of-domain values (timescales 0, parameter sets of 0..4 bytes, odd language strings, arbitrary brand bytes, unknown track ids, add_track after samples, maximal durations and offsets) plus explicit 16 MiB-sample sequences, in both an overflow-checked and a wrapping build; no call may panic, and when all calls succeed the output must pass the C01 read-back and the C02 validator.",
+    "Bounded by sequence length and the listed alphabets; calls after write_end are outside the statement ('up to write_end'). The wrapping-profile run happens in a child process whose death would be reported as a machinery failure, not a verdict.",
+    "exhaustive enumeration of call sequences (depth-bounded) over out-of-domain alphabets on the real muxer, two build profiles","§3 C17")
+
 NA={}
 m={"version":1,
    "setup_cmd":"cd harness && CARGO_NET_OFFLINE=true cargo build --offline --release && CARGO_NET_OFFLINE=true cargo build --offline --profile wrapping",
